@@ -107,7 +107,7 @@ theorem newEDNS0_udp (d : Bytes) : newEDNS0 udpSize d = ownOpt d := by
 theorem reqMsg_eq (env : Env) (q : Question) :
     reqMsg env q = ⟨{ emptyHdr with rd := true }, [q], [], [], [ownOpt (wantEcs env)]⟩ := by
   unfold reqMsg
-  simp only [reqData_eq, newEDNS0_udp]
+  simp only [ecsGuard, Bool.and_eq_true, reqData_eq, newEDNS0_udp]
 
 theorem ownOpt_wf (d : Bytes) (h : d.length ≤ 65535) : resourceWF (ownOpt d) = true := by
   have hn : nameWF [] = true := nameWF_nil
